@@ -1772,4 +1772,10 @@ theorem blk_interior_tangent (hmu : 0 < mu) (j0 : ℝ) (jar : Fin n → ℝ) (i 
 
 end interior
 
+
+/-- cost of an elliptic block as the code accumulates it: the sum of the increments `s += …` that
+    `ellBlock` records for the block with normal residual `jar0` and tangential residuals `jar` -/
+noncomputable def ellCost {n : ℕ} (D0 mu : ℝ) (D w : Fin n → ℝ) (jar0 : ℝ) (jar : Fin n → ℝ) : ℝ :=
+  ((ellBlock D0 jar0 mu (tsOf D w jar)).terms).sum
+
 end MjProof.Constraint
